@@ -661,7 +661,15 @@ func (w *World) doWrite(s fs_db.Store, key string, b []byte, op Op) error {
 			}
 		}
 		cancelCreate()
-		cerr := f.Close()
+		// Close always returns (C12); one that has not after 30 s of a write of at most a few megabytes never will
+		done := make(chan error, 1)
+		go func() { done <- f.Close() }()
+		var cerr error
+		select {
+		case cerr = <-done:
+		case <-time.After(30 * time.Second):
+			return fmt.Errorf("harness watchdog: Close of the file created for %q has not returned after 30 s (earlier Write error: %v)", key, werr)
+		}
 		if werr != nil {
 			return werr
 		}
